@@ -15,10 +15,10 @@ import (
 	"pgregory.net/rapid"
 	"sigs.k8s.io/yaml"
 
+	"helm.sh/helm/v4/pkg/action"
 	chart "helm.sh/helm/v4/pkg/chart/v2"
 	"helm.sh/helm/v4/pkg/cli/values"
 	"helm.sh/helm/v4/pkg/getter"
-	"helm.sh/helm/v4/pkg/action"
 	"helm.sh/helm/v4/pkg/lint"
 	"helm.sh/helm/v4/pkg/lint/support"
 
